@@ -255,6 +255,8 @@ def engine_over_native(fam, t, natives):
         k = s[0]
         if k in natives:
             return True
+        if k == "lit" and "bytes" in natives and any(c[0] == "y" for c in s[1]):
+            return True                  # a bytes constant of a Literal is a bytes value on the wire
         if k in ("seq", "map", "counter", "chainmap", "dc", "gdc"):
             return False                 # metadata is dropped for collection elements; nested classes have their own
         if k in ("nt", "td") and s[1] not in seen:
